@@ -38,7 +38,10 @@
 (* in every float-typed DICT field (exhaustive run); "maxima" = the upper   *)
 (* end, and the value below it, of every count field: 255 / 256 private     *)
 (* dictionaries with FDSelect in long runs, alternating, and on one glyph;  *)
-(* 65534 / 65535 glyphs; CID 65535 (exhaustive run).                        *)
+(* 65534 / 65535 glyphs; CID 65535 (exhaustive run); "edges" = every       *)
+(* scalar over every operator's default value +-1, empty INDEX elements,   *)
+(* assembled files with predefined charsets / encodings, width differences  *)
+(* at the ends of the charstring number forms (exhaustive run).             *)
 (***************************************************************************)
 EXTENDS CFFLayoutOps, Json
 
@@ -120,7 +123,8 @@ Mag(x) == x[3] + x[2]                                 \* value in [10^(Mag-1), 1
 Dflt == [kind |-> "simple", n |-> 5, namePat |-> "custom", cidPat |-> "ident", nfd |-> 1, fdPat |-> "zero",
        encPat |-> "range", encK |-> 2, nSup |-> 0, wPat |-> "ints", strPat |-> "custom", pad |-> 0,
        intSel |-> 20, realSel |-> 1, ulPat |-> "def", ulSel |-> 1, fmPat |-> "def", privPat |-> "typ",
-       shapePat |-> "mixed", bulk |-> 3]
+       shapePat |-> "mixed", bulk |-> 3,
+       x |-> <<"none", 0, 0, 0>>]     \* an override applied to the expanded font (mode "edges")
 
 (* ------------------------------ expansion ------------------------------ *)
 G(i) == "g" \o ToString(i)
@@ -371,6 +375,9 @@ Expand(dd) ==
              ELSE [reg |-> "", ord |-> "", sup |-> 0],
       priv |-> [j \in 1..nfd |-> PrivOf(dd, j)],
       loose |-> (dd.fmPat = "extreme"),
+      \* asm.on: the file is not written by the library but assembled by the harness with a predefined charset /
+      \* encoding (freedom of the format that Write never uses); judge = FALSE: recorded, not judged
+      asm |-> [on |-> FALSE, charset |-> 0, enc |-> 0], judge |-> TRUE,
       \* SIDs are 2-byte numbers in 0..64999 (TN5176 section 10): at most 64999 - 390 strings besides the
       \* standard ones.  A font that needs more cannot be represented; the writer has to refuse it.
       fits |-> Cardinality(({names[i] : i \in 1..Len(names)}
@@ -380,6 +387,108 @@ Expand(dd) ==
                             \ ({StdStr[i] : i \in 1..NStd} \cup {""})) <= 64999 - (NStd - 1)
                /\ (cid \/ ~e.has \/ EncFits(e.enc)),
       desc |-> dd]
+
+(* ------------------------ mode "edges": overrides ---------------------- *)
+(* (a) defaults.  DefaultVals = every default of DictDefaults (TN5176 Tables 9, 10, 23), the values one
+   below and one above, and 0.  Every scalar the API can set runs through all of them: a value equal to
+   ANOTHER operator's default must not be taken for "default, leave it out". *)
+DecAdd(v, k) == IF v[2] >= 0 THEN Norm(v[1] * P10(v[2]) + k, 0) ELSE Norm(v[1] + k * P10(-v[2]), v[2])
+DefaultVals ==
+  SetToSeq(UNION {{DecAdd(DictDefaults[i][3], -1), DecAdd(DictDefaults[i][3], 0), DecAdd(DictDefaults[i][3], 1)} :
+                    i \in 1..Len(DictDefaults)} \cup {Z})
+DVat(i) == DefaultVals[((i - 1) % Len(DefaultVals)) + 1]
+DecAbs(v) == IF v[1] < 0 THEN -v[1] ELSE v[1]
+DecIsInt(v) == v[2] >= 0 /\ v[2] <= 4
+DecInt(v) == v[1] * P10(v[2])
+DecIn(v, k) == /\ v[1] >= 0                                                                  \* 0 <= v <= k
+               /\ IF v[2] >= 0 THEN v[1] * P10(v[2]) <= k
+                  ELSE LET q == v[1] \div P10(-v[2])  r == v[1] % P10(-v[2]) IN q < k \/ (q = k /\ r = 0)
+DecAngleOK(v) == \/ v = Z
+                 \/ /\ (IF v[2] >= 0 THEN DecAbs(v) * P10(v[2]) < 180 ELSE DecAbs(v) < 180 * P10(-v[2]))
+                    /\ (v[2] >= -3 \/ DecAbs(v) * 1000 >= P10(-v[2]))
+IntOr(v, dflt) == IF DecIsInt(v) THEN DecInt(v) ELSE dflt
+\* widths that make the writer choose nominalWidthX = v: three glyphs of a far-away most frequent width and two
+\* widths a < b with a + b = 5 v and a + 107 <= v <= b - 107 (the writer takes the rounded mean over all five)
+NominalFamily(v) == LET a == IF v >= 0 THEN v - 300 ELSE 4 * v - 300
+                        b == IF v >= 0 THEN 4 * v + 300 ELSE v + 300
+                    IN << <<7777, 0>>, <<7777, 0>>, <<7777, 0>>, <<a, 0>>, <<b, 0>> >>
+XDefaults(f, i, sub) ==
+  LET v(k) == DVat(i + k)
+      wv == IntOr(v(19), 500)
+  IN [f EXCEPT !.ulPos = v(0), !.ulThick = v(3), !.ulAdd = <<0, 0>>,
+               !.angle = IF DecAngleOK(v(5)) THEN v(5) ELSE Z,
+               !.fixed = (i % 2 = 0),
+               !.ros = IF f.cid THEN [f.ros EXCEPT !.sup = IntOr(v(17), 0)] ELSE f.ros,
+               !.w = IF sub = 0 THEN [g \in 1..f.n |-> <<wv, 0>>] ELSE NominalFamily(wv),
+               !.priv = [j \in 1..f.nfd |->
+                           [f.priv[j] EXCEPT !.blueScale = IF DecIn(v(7 + j), 1) THEN v(7 + j) ELSE <<39625, -6>>,
+                                             !.blueShift = IntOr(v(9 + j), 7), !.blueFuzz = IntOr(v(11 + j), 1),
+                                             !.stdHW = IF DecIn(v(13 + j), 10000) THEN v(13 + j) ELSE Z,
+                                             !.stdVW = IF DecIn(v(15 + j), 10000) THEN v(15 + j) ELSE Z,
+                                             !.forceBold = ((i + j) % 2 = 0)]]]
+
+(* (b) empty elements of an INDEX (two equal consecutive offsets): an empty FontName, an empty glyph name as the
+   first, a middle and the last custom string, an empty Registry and / or Ordering.  (Empty FontInfo strings are
+   strPat "empty"; the library writes no entry for them.) *)
+XEmpty(f, which) ==
+  CASE which = 1 -> [f EXCEPT !.fontName = ""]
+    [] which \in {2, 3} -> [f EXCEPT !.names = [f.names EXCEPT ![which] = ""]]
+    [] which = 4 -> [f EXCEPT !.names = [f.names EXCEPT ![f.n] = ""]]
+    [] which = 5 -> [f EXCEPT !.ros = [f.ros EXCEPT !.reg = ""]]
+    [] which = 6 -> [f EXCEPT !.ros = [f.ros EXCEPT !.ord = ""]]
+    [] which = 7 -> [f EXCEPT !.ros = [f.ros EXCEPT !.reg = "", !.ord = ""]]
+    [] which = 8 -> [f EXCEPT !.fontName = ""]
+
+(* (c) files the library never writes: predefined charset cs (0 ISOAdobe, 1 Expert, 2 ExpertSubset) and predefined
+   encoding en (0 Standard, 1 Expert), n one-byte charstrings, everything else at its default.  The harness
+   assembles the bytes; cff.Read must deliver the predefined names and codes.  Beyond the end of the charset
+   (n > its length) the file is not valid: recorded, not judged. *)
+DefaultPriv == [blues |-> <<>>, other |-> <<>>, blueScale |-> <<39625, -6>>, blueShift |-> 7, blueFuzz |-> 1,
+                stdHW |-> Z, stdVW |-> Z, forceBold |-> FALSE, fm |-> <<Z, Z, Z, Z, Z, Z>>]
+XAsm(f, cs, en) ==
+  LET n == f.n
+      L == Len(PredefCharset(cs))
+      names == [g \in 1..n |-> IF g <= L THEN StdStr[PredefCharset(cs)[g] + 1] ELSE "?" \o ToString(g)]
+  IN [f EXCEPT !.names = names, !.hasEnc = FALSE,
+               !.enc = PredefEncoding(IF en = 0 THEN StdEnc ELSE ExpEnc, names),
+               !.w = [g \in 1..n |-> Z], !.shape = [g \in 1..n |-> 0],
+               !.fontName = "Asm", !.version = "", !.notice = "", !.copyright = "", !.fullName = "",
+               !.familyName = "", !.weight = "", !.fixed = FALSE, !.angle = Z,
+               !.ulPos = <<-100, 0>>, !.ulThick = <<50, 0>>, !.ulAdd = <<0, 0>>, !.fm = DefFM,
+               !.priv = <<DefaultPriv>>, !.loose = FALSE, !.fits = TRUE,
+               !.asm = [on |-> TRUE, charset |-> cs, enc |-> en], !.judge = (n <= L)]
+
+(* (d) the number encoding of charstrings reached through the width: width - nominalWidthX next to +-32768 (end of
+   the 16.16 operand range), +-1131/1132 and +-107/108.  nominalWidthX is the writer's choice; the families aim at
+   it (four glyphs: 500, 500 and two others): fam 1/2: 0 and b = +-(4 T / 3 + j), nominal = b/4 rounded;
+   fam 3: -14 and 200 + j, nominal = min + 107; fam 4: -14 and -(228 + j), nominal = max - 107. *)
+WTargets == <<32767, 32768, 32769, 1131, 1132>>
+XWidth(f, fam, t, j) ==
+  LET b == CASE fam = 1 -> (4 * WTargets[t]) \div 3 + j
+             [] fam = 2 -> -((4 * WTargets[t]) \div 3 + j)
+             [] fam = 3 -> 200 + j
+             [] fam = 4 -> -(228 + j)
+      a == IF fam \in {1, 2} THEN 0 ELSE -14
+  IN [f EXCEPT !.w = << <<500, 0>>, <<500, 0>>, <<a, 0>>, <<b, 0>> >>]
+
+ExpandX(dd) ==
+  LET f == Expand(dd)  x == dd.x IN
+  CASE x[1] = "none"  -> f
+    [] x[1] = "dflt"  -> XDefaults(f, x[2], x[3])
+    [] x[1] = "empty" -> XEmpty(f, x[2])
+    [] x[1] = "asm"   -> XAsm(f, x[2], x[3])
+    [] x[1] = "w"     -> XWidth(f, x[2], x[3], x[4])
+
+Edges ==
+  {[Dflt EXCEPT !.kind = k, !.nfd = IF k = "cid" THEN 2 ELSE 1, !.fdPat = "alt", !.n = IF sub = 0 THEN 3 ELSE 5,
+                !.x = <<"dflt", i, sub, 0>>] : k \in {"simple", "cid"}, i \in 1..Len(DefaultVals), sub \in {0, 1}}
+  \cup {[Dflt EXCEPT !.x = <<"empty", w, 0, 0>>] : w \in 1..4}
+  \cup {[Dflt EXCEPT !.kind = "cid", !.nfd = 2, !.fdPat = "alt", !.x = <<"empty", w, 0, 0>>] : w \in 5..8}
+  \cup UNION {{[Dflt EXCEPT !.n = n, !.x = <<"asm", cs, en, 0>>] :
+                  en \in {0, 1}, n \in {1, 2, Len(PredefCharset(cs)) - 1, Len(PredefCharset(cs)), Len(PredefCharset(cs)) + 1}} :
+               cs \in 0..2}
+  \cup {[Dflt EXCEPT !.n = 4, !.x = <<"w", fam, t, j>>] : fam \in {1, 2}, t \in 1..Len(WTargets), j \in (-2)..2}
+  \cup {[Dflt EXCEPT !.n = 4, !.x = <<"w", fam, 1, j>>] : fam \in {3, 4}, j \in (-1)..2}
 
 (* ------------------------------- behaviours ---------------------------- *)
 \* a descriptor is usable if the patterns fit the glyph count
@@ -459,6 +568,7 @@ RealShapes == {[Dflt EXCEPT !.kind = "cid", !.nfd = 3, !.n = 3, !.fdPat = "alt",
 Init ==
   /\ CASE Mode = "shapes" -> d \in RealShapes /\ stage = "done"
        [] Mode = "maxima" -> d \in Maxima /\ stage = "done"
+       [] Mode = "edges" -> d \in Edges /\ stage = "done"
        [] Mode = "ofat"  -> d \in {x \in Ofat : Usable(x)} /\ stage = "done"
        [] Mode = "sweep" -> d \in Sweep /\ stage = "done"
        [] Mode = "big"   -> d \in {x \in Big : Usable(x)} /\ stage = "done"
@@ -502,5 +612,5 @@ WF(f) ==
                        => (f.enc = PredefEncoding(StdEnc, f.names) \/ f.enc = PredefEncoding(ExpEnc, f.names))
 
 \* one CASE line per generated font; the invariant fails if the font is not well-formed
-Emit == stage = "done" => LET f == Expand(d) IN WF(f) /\ PrintT(<<"CASE", ToJson(f)>>)
+Emit == stage = "done" => LET f == ExpandX(d) IN WF(f) /\ PrintT(<<"CASE", ToJson(f)>>)
 =============================================================================
